@@ -140,7 +140,7 @@ class PaneBase:
         return PaneConverter(cls, handlers=handlers)
 
     @classmethod
-    def make_unchecked(cls, *args: t.Any, **kwargs: t.Any) -> Self:
+    def make_unchecked(cls, /, *args: t.Any, **kwargs: t.Any) -> Self:
         ...
 
     @classmethod
@@ -530,7 +530,7 @@ def _make_init(cls: t.Type[PaneBase], fields: t.Sequence[Field]):
 
     sig = Signature(params, return_annotation=None)
 
-    def __init__(self: PaneBase, *args: t.Any, **kwargs: t.Any):
+    def __init__(self: PaneBase, /, *args: t.Any, **kwargs: t.Any):  # (a field may be called `self`)
         from_dict = kwargs.pop('_pane_from_dict', None)
         if from_dict is not None:
             from_dict_set = kwargs.pop('_pane_set_fields', None)
@@ -576,7 +576,7 @@ def _make_init(cls: t.Type[PaneBase], fields: t.Sequence[Field]):
     setattr(cls, '__signature__', sig)
 
     @classmethod
-    def make_unchecked(cls, *args, **kwargs):  # type: ignore
+    def make_unchecked(cls, /, *args, **kwargs):  # type: ignore
         return cls(*args, **kwargs, _pane_checked=False)  # type: ignore
 
     sig2 = Signature([Parameter('cls', Parameter.POSITIONAL_OR_KEYWORD), *params], return_annotation=Self)
